@@ -166,6 +166,9 @@ type Node07 struct {
 	Branch string `json:"branch,omitempty"` // "" or the condition's input type: the connection to the next node is a branch
 	// Branch2 (only with Branch): a second branch on the same node with its own condition type; both choose the
 	// next node.  B2First: it is added before the first one.
+	// IK (pass nodes): added with WithInputKey("k"): its input must be a map[string]any, what flows on is the
+	// value under the key (its type is whatever the neighbours fix; the value itself is checked at run time)
+	IK      bool   `json:"ik,omitempty"`
 	Branch2 string `json:"branch2,omitempty"`
 	B2First bool   `json:"b2first,omitempty"`
 	PreH    string `json:"preh,omitempty"` // "" or the pre-handler's value type
@@ -242,6 +245,14 @@ func genC07(t *rapid.T) CaseC07 {
 		curBefore = append(curBefore, cur)
 		if rapid.IntRange(0, 3).Draw(t, "pass") == 0 {
 			n.Kind = "pass"
+			w := 9
+			if cur == "map" || cur == "any" {
+				w = 1
+			}
+			if rapid.IntRange(0, w).Draw(t, "inputKey") == 0 {
+				n.IK = true
+				cur = "any"
+			}
 		} else {
 			n.Kind = "lambda"
 			if rapid.IntRange(0, 9).Draw(t, "mismatch") < 2 {
@@ -314,7 +325,9 @@ func build07[I, O any](c CaseC07) (run07, error) {
 			opts = append(opts, c07PreHandlers[n.PreH]())
 		}
 		var err error
-		if n.Kind == "pass" {
+		if n.Kind == "pass" && n.IK {
+			err = g.AddPassthroughNode(key(i), compose.WithInputKey("k"))
+		} else if n.Kind == "pass" {
 			err = g.AddPassthroughNode(key(i))
 		} else {
 			err = g.AddLambdaNode(key(i), c07Lambdas[n.In+">"+n.Out](key(i), n.Dyn), opts...)
@@ -539,6 +552,7 @@ func checkC07(c CaseC07) (*vkit.Failure, vkit.Meta) {
 		mayEdgeOK, mayEdgeBad := false, false
 		sideFed, sideAmbiguous := false, false
 		twoBranches := false
+		keyedPass := false
 		visit := func(p pos) {
 			if firstBad != nil {
 				return
@@ -648,6 +662,16 @@ func checkC07(c CaseC07) (*vkit.Failure, vkit.Meta) {
 					}
 				}
 			}
+			if n.Kind == "pass" && n.IK {
+				visit(pos{fmt.Sprintf("input of the keyed pass-through x%d", i), declared, "map"})
+				if firstBad == nil {
+					mv, _ := val.(map[string]any)
+					val = mv["k"]
+					declared = "any" // a value taken out of a map[string]any: checked dynamically from here on
+					producerOut = "any"
+					keyedPass = true
+				}
+			}
 			if n.Branch != "" && n.Branch2 != "" {
 				// a pass-through node that is still untyped takes the type of the branch condition added first: with
 				// an interface-typed sibling branch the declared type in front of this condition may be that interface
@@ -709,6 +733,9 @@ func checkC07(c CaseC07) (*vkit.Failure, vkit.Meta) {
 		if twoBranches {
 			m.Labels = append(m.Labels, "two-branches-on-one-node")
 		}
+		if keyedPass {
+			m.Labels = append(m.Labels, "keyed-pass-through")
+		}
 		if firstBad == nil && sideAmbiguous {
 			// the value fits everything downstream but not every type the pass-through node may have been given
 			if rerr != nil && strings.Contains(rerr.Error(), "panic error") {
@@ -730,7 +757,9 @@ func checkC07(c CaseC07) (*vkit.Failure, vkit.Meta) {
 		if !isIface(firstBad.declared) {
 			return &vkit.Failure{Kind: "concrete-mismatch-accepted", Sig: "concrete-mismatch-accepted", Msg: fmt.Sprintf("the graph was accepted by Add*/Compile although %s needs %s and its producer is declared %s (both concrete); the run failed with: %s", firstBad.what, firstBad.want, firstBad.declared, shortErr(rerr))}
 		}
-		if strings.Contains(rerr.Error(), "panic error") {
+		if strings.Contains(rerr.Error(), "panic error") && !keyedPass {
+			// (a value taken out of a map by an input key is not an "interface-typed edge" in the sense of the statement:
+			// its consumer's own assertion reports the mismatch, as a recovered panic; not judged)
 			return &vkit.Failure{Kind: "runtime-check-is-a-panic", Sig: "runtime-check-is-a-panic", Msg: fmt.Sprintf("%s needs %s, producer declared %s holds %T: the mismatch surfaced through a recovered panic, not an ordinary error: %s", firstBad.what, firstBad.want, firstBad.declared, val, shortErr(rerr))}
 		}
 		return nil
